@@ -2,13 +2,14 @@
 
 Monitor: online trace checker on a VIRTUAL clock.  The host-Lua globals os.time and debug.sethook that
 _lua_set_timeout looks up at call time are replaced through ctx.lua.globals(): every poll of the timeout hook
-(once per 100 000 VM instructions) advances virtual time by 0.25 s, every arm/clear of the hook is logged, and
+advances virtual time by 2.5 microseconds per VM instruction of the period the hook was armed with (0.25 s per
+100 000 instructions, 2.5 ms per 1 000), every arm/clear of the hook is logged, and
 when the product clears the hook while an invocation is still active a counting monitor hook takes its place.
 Each program runs in a forked child of an initialised context, so a violation inside a never-ending Lua loop
 can be reported (pipe) and the child ended without losing the shard.
 
-Rules: R1 once the product's own deadline condition holds, the outermost invocation returns within B=3 further
-polls; R2 while an invocation is active Lua does not run 2*10^6 instructions with no limit armed; R3 the call
+Rules: R1 once the product's own deadline condition holds, the outermost invocation returns within B_SECONDS = 0.75
+further VIRTUAL seconds (= 300 000 VM instructions under an armed hook, whatever its period); R2 while an invocation is active Lua does not run 2*10^6 instructions with no limit armed; R3 the call
 expands to the 'Lua timeout error' element (bodies that end by themselves with a Lua error, e.g. stack overflow,
 may give the execution-error element); R4/usability: follow-up benign invocations on the same context give the
 results of a fresh context, also after virtual time jumps 120 s ahead."""
@@ -30,15 +31,24 @@ RULE = ("programs = body x wrapper x limit: bodies {while-true, counting loop, r
         "module, loop inside a mw.loadData module, loop in a metamethod, loop in a gsub callback, loop while loading the module} x "
         "wrappers {none, pcall, xpcall, pcall in an outer loop, nested pcall, nested #invoke via frame:preprocess that loops, benign "
         "nested #invoke THEN loop, expandTemplate of a looping template, calls to _lua_set_timeout/_lua_clear_timeout_hook when "
-        "reachable, error-swallowing loop} x limit {0.5,1,2,None}, each followed by 1-5 benign invocations. non-trivial = distinct "
-        "(body, wrapper, limit) whose execution polled the virtual clock at least once")
-ASSUMPTIONS = ["virtual time: a poll of the product's hook advances the clock by 2.5 microseconds per VM instruction of the period the hook was armed with (0.25 s per 100 000 instructions); 'small bound' B = 3 polls after the product's own deadline condition becomes true",
+        "reachable, error-swallowing loop, xpcall message-handler variants} x limit {0.5,1,2,None}, each followed by 1-5 benign "
+        "invocations; PLUS complete scans of parameterised wrappers: loop inside N nested pcalls / N nested xpcalls / N nested pcalls "
+        "in a nested #invoke for every N the interpreter's C-call limit allows (the position of the next hook expiry while the abort "
+        "unwinds is a function of N), recursion through pcall / xpcall / metamethod / gsub callback down to the C-call limit and THEN "
+        "an error-swallowing loop; module titles {plain, containing a phrase the host's error classification looks for}; CPU clock: "
+        "loops over library calls of 1-10 ms and loops whose one library call outlasts the bound (backtracking patterns). "
+        "non-trivial = distinct (body, wrapper, limit[, title kind]) whose execution polled the virtual clock at least once")
+ASSUMPTIONS = ["virtual time: a poll of the product's hook advances the clock by 2.5 microseconds per VM instruction of the period the hook was armed with (0.25 s per 100 000 instructions); 'small bound' of R1 = 0.75 virtual seconds (300 000 VM instructions under the armed hook, independent of the hook period of the tree under test) after the poll at which the product's own deadline condition first holds",
                "CPU clock (second part): os.time = whole CPU seconds used by the forked process; bound = limit + 8 s of CPU; the library calls in those loops cost 1-10 ms each",
-               "single C calls that never return to the VM (string.rep('x',1e9)) are outside the stated grammar",
+               "a loop whose single library call takes longer than limit + bound is a 'loop calling library functions' of the stated grammar and is generated (backtracking string patterns, minutes per call); calls that end by exhausting memory instead of time (string.rep('x',1e9)) are not generated; bodies that call such a function once and then RETURN are terminating programs, outside the quantifier",
+               "module titles are a free dimension of every program (the statement speaks of every #invoke); titles are drawn from {pN, pN + a phrase that call_lua_sandbox searches the error text for}",
+               "programs that spin at the interpreter's C-call limit are decided by the heartbeat CPU cap (15 s of CPU in Lua without one poll and without Python getting control; 30 s for all other programs)",
                "Lua stand-ins for the absent Scribunto ustring/libraryUtil files",
                "each program runs in a fork of an initialised context (same start state for every program)"]
 WALL = {"quick": 900, "thorough": 5400}
-B = 3
+# 'small bound' of R1 in VIRTUAL time: 0.75 s = 300 000 VM instructions of armed hook (3 polls of a hook armed with a
+# period of 100 000 instructions, 300 polls of one armed with 1 000), whatever period the tree under test uses
+B_SECONDS = 0.75
 MONITOR_TICKS_MAX = 20
 # a nested invocation costs well over 1000 VM instructions; the product's hook polls the clock every 100 000:
 # thousands of nested invocations inside one outer invocation without a single poll mean the limit is not counting
@@ -84,11 +94,53 @@ WRAPPERS = ["none", "pcall", "xpcall", "pcall-outer-loop", "nested-pcall", "swal
             # xpcall message handlers: Lua runs the handler of an error raised by the count hook with hooks disabled
             "xpcall-handler-constant", "xpcall-handler-table", "xpcall-handler-nothing", "xpcall-handler-loops",
             "xpcall-error-then-handler-loops", "xpcall-handler-errors", "xpcall-in-outer-loop"]
+# ---- parameterised wrapper families ("family:parameter"; signatures carry the family only, see wtag)
+# loop inside N nested protected calls: after the limit the error travels up through N sandbox pcall/xpcall levels, a
+# fixed number of VM instructions each, so N decides WHERE the next expiry of the still armed hook lands (in
+# particular: inside the epilogue of the invocation, which runs outside every protected call).  The whole range of N
+# that the C-call limit of the interpreter (200) allows is scanned: one period of the hook is covered several times.
+NEST_FAMILY = "loop-inside-N-nested-protected-calls"
+NEST_KINDS = {"pcall": 192, "xpcall": 192, "pcall-in-nested-invoke": 150}
+NEST_SCAN = [("%s:%s" % (NEST_FAMILY, k), n) for k in sorted(NEST_KINDS) for n in range(1, NEST_KINDS[k] + 1)]
+# recursion through protected calls down to the interpreter's C-call limit, THEN the loop (in an error-swallowing
+# loop): the deepest levels are where calling anything -- also a hook function -- fails with 'C stack overflow'
+DEPTH_LIMIT_VIAS = ["pcall", "xpcall", "metamethod+pcall", "gsub-callback+pcall"]
+DEPTH_LIMIT_FAMILY = "recursion-to-the-C-call-limit-then-swallow-loop"
+# module titles: the host classifies a failed invocation by searching the error text (message + traceback + the
+# title in 'Loading module failed in #invoke: <title>') for phrases of Wiktionary errors it wants to ignore
+NAME_KINDS = {
+    "plain": "",
+    "ignorable-error-phrase(translations)": " Translations must be for attested and approved terms",
+    "ignorable-error-phrase(getLinkPage)": " attempt to index a nil value (local 'lang') in function 'Module:links.getLinkPage'",
+    "debug.error-phrase": " 'debug.error'",
+}
+
+
+NEST_BODIES = ["while-true", "counting", "repeat", "string-lib", "table-lib", "mw-lib", "tail-rec", "mutual-rec", "metamethod",
+               "gsub-callback", "in-required"]
+DEPTH_LIMIT_BODIES = ["while-true", "string-lib", "counting", "mw-lib"]
+TITLE_BODIES = ["while-true", "counting", "repeat", "string-lib", "table-lib", "tail-rec", "in-required"]
+# the depth-limit programs are pure Lua loops: this much CPU without one poll and without Python getting control
+DEPTH_LIMIT_CPU_CAP = 15
+
+
+def wtag(w):
+    """Wrapper family (what signatures carry): 'family:parameter' -> 'family'."""
+    return w.split(":")[0]
+
+
+def cpu_cap_of(w):
+    return DEPTH_LIMIT_CPU_CAP if wtag(w) == DEPTH_LIMIT_FAMILY else CHILD_CPU_CAP
+
+
 # CPU seconds one forked program may spend without the Python interpreter getting control once (RLIMIT_CPU pushed
 # back by a Python-level heartbeat, load independent).  An armed count hook polls os.time (= the virtual clock, Python)
 # every 100 000 VM instructions, i.e. many times per second: a program that burns this much CPU without one poll and
 # without any callback into Python is running Lua where the count hook cannot fire.
 CHILD_CPU_CAP = 30
+# watchdog of one forked program (gives INCONCLUSIVE, never a verdict): CPU seconds of the child, and wall seconds behind it
+CHILD_WATCHDOG_CPU = 120
+CHILD_WATCHDOG_WALL = 480
 
 # ---- second clock: CPU time.  The virtual clock counts polls, so it cannot see how much real time passes BETWEEN two
 # polls.  Loops whose iterations are few VM instructions but expensive library calls (the library call is one
@@ -108,13 +160,25 @@ CPU_BODIES = {
     "format-5MB": "local s = string.rep('x', 5e6) while true do string.format('%s%s', s, s) end",
 }
 CPU_WRAPPERS = ["none", "pcall", "xpcall-handler-constant"]
+# loops calling a library function whose ONE call costs more than limit + CPU_KILL_EXTRA seconds (backtracking
+# patterns: 18 items 'a*' against 18 'a' and no 'b' is minutes per call).  The call is protected, so the loop goes on
+# whatever the call answers (also when a tree refuses such a pattern with an error).
+_BT = "local s, p = string.rep('a', 18), string.rep('a*', 18) .. 'b' "
+CPU_SLOW_CALL_BODIES = {
+    "find-backtracking": _BT + "while true do pcall(string.find, s, p) end",
+    "match-backtracking": _BT + "while true do pcall(string.match, s, p) end",
+    "gsub-backtracking": _BT + "while true do pcall(string.gsub, s .. 'c', p, '') end",
+    "gmatch-backtracking": _BT + "while true do pcall(function() for m in s:gmatch(p) do end end) end",
+}
 
 
 def floors(tier):
-    return {"oracle.R1-aborted-within-B-polls": 60, "oracle.R3-timeout-element": 60, "oracle.followup==fresh": 100,
+    return {"oracle.R1-aborted-within-bound-after-deadline": 60, "oracle.R3-timeout-element": 60, "oracle.followup==fresh": 100,
             "sets.body-wrapper-pairs": 300, "counters.hook.arm": 100, "counters.polls": 500, "counters.invocation-depth>=2": 10,
             "counters.followups-after-time-jump": 20, "counters.disturbances": 50,
-            "oracle.R1cpu-aborted-within-cpu-bound": 12}
+            "oracle.R1cpu-aborted-within-cpu-bound": 12, "oracle.R1cpu-slow-single-call": 2,
+            "counters.nest-scan-programs": 500, "sets.depth-limit-vias": 4, "counters.module-title-phrase-programs": 80,
+            "sets.nest-kinds": 3}
 
 
 def shards(tier, seed):
@@ -122,14 +186,56 @@ def shards(tier, seed):
     return [{"seed": seed * 1000 + i, "n": per, "idx": i, "tier": tier} for i in range(16)]
 
 
-def program(body_name, wrapper, n):
+def program(body_name, wrapper, n, name_kind="plain"):
     """Returns (module pages, invoke wikitext, may_error)."""
-    body, may_error = BODIES[body_name] if body_name in BODIES else (CPU_BODIES[body_name], False)
-    name = "p%d" % n
+    body, may_error = BODIES[body_name] if body_name in BODIES else (
+        (CPU_BODIES[body_name] if body_name in CPU_BODIES else CPU_SLOW_CALL_BODIES[body_name]), False)
+    name = "p%d" % n + NAME_KINDS[name_kind]
     pages = []
     fn = "local function spin(frame)\n" + body + "\nend\n"
     w = wrapper
-    if w == "none":
+    fam, _, par = w.partition(":")
+    # the title inside Lua string literals of the generated module
+    lname = name.replace("\\", "\\\\").replace("'", "\\'")
+    if fam == NEST_FAMILY:
+        kind, _, depth = par.rpartition(":")
+        # (a level whose protected call comes back -- e.g. refused by the interpreter's C-call limit -- loops itself)
+        if kind == "xpcall":
+            nest = ("local function nest(frame, i) if i == 0 then return spin(frame) end "
+                    "xpcall(function() return nest(frame, i - 1) end, function(m) return m end) return spin(frame) end\n")
+        else:
+            nest = "local function nest(frame, i) if i == 0 then return spin(frame) end pcall(nest, frame, i - 1) return spin(frame) end\n"
+        if kind == "pcall-in-nested-invoke":
+            f = nest + ("function e.g(frame) nest(frame, %d) return 'returned' end\n"
+                        "function e.f(frame) return frame:preprocess('{{#invoke:%s|g}}') end" % (int(depth), lname))
+        elif kind in ("pcall", "xpcall"):
+            f = nest + "function e.f(frame) nest(frame, %d) return 'returned' end" % int(depth)
+        else:
+            raise ValueError(w)
+    elif fam == DEPTH_LIMIT_FAMILY:
+        # every level tries one level deeper; a level that sees the interpreter's overflow error from below runs the
+        # loop (errors of the loop swallowed, as in 'swallow-loop') instead of going deeper
+        onerr = ("if not ok and tostring(err):find('stack overflow') then while true do pcall(spin, frame) end end "
+                 "error(err, 0)")
+        if par == "pcall":
+            f = "local function rec(frame, d) local ok, err = pcall(rec, frame, d + 1) %s end\n" % onerr
+            start = "pcall(rec, frame, 1)"
+        elif par == "xpcall":
+            f = ("local function rec(frame, d) local ok, err = xpcall(function() return rec(frame, d + 1) end, "
+                 "function(m) return m end) %s end\n" % onerr)
+            start = "pcall(rec, frame, 1)"
+        elif par == "metamethod+pcall":
+            f = ("local frame0\nlocal t\nt = setmetatable({}, {__index = function(_, d) local frame = frame0 "
+                 "local ok, err = pcall(function() return t[d + 1] end) %s end})\n" % onerr)
+            start = "frame0 = frame pcall(function() return t[1] end)"
+        elif par == "gsub-callback+pcall":
+            f = ("local function rec(frame, d) local ok, err = pcall(string.gsub, 'a', 'a', function() rec(frame, d + 1) end) "
+                 "%s end\n" % onerr)
+            start = "pcall(rec, frame, 1)"
+        else:
+            raise ValueError(w)
+        f += "function e.f(frame) %s return 'returned' end" % start
+    elif w == "none":
         f = "function e.f(frame) return spin(frame) end"
     elif w == "pcall":
         f = "function e.f(frame) local ok, r = pcall(spin, frame) return 'caught:' .. tostring(ok) end"
@@ -157,12 +263,12 @@ def program(body_name, wrapper, n):
     elif w == "swallow-loop":
         f = "function e.f(frame) local n = 0 while true do local ok = pcall(function() while true do n = n + 1 end end) end end"
     elif w == "preprocess-nested-loop":
-        f = "function e.g(frame) return spin(frame) end\nfunction e.f(frame) return frame:preprocess('{{#invoke:%s|g}}') end" % name
+        f = "function e.g(frame) return spin(frame) end\nfunction e.f(frame) return frame:preprocess('{{#invoke:%s|g}}') end" % lname
     elif w == "nested-benign-then-loop":
         f = "function e.f(frame) local s = frame:preprocess('{{#invoke:b|echo|x}}') return spin(frame) end"
     elif w == "expandTemplate-loop":
         pages.append(("Template:spin" + name, 10, "{{#invoke:%s|g}}" % name))
-        f = "function e.g(frame) return spin(frame) end\nfunction e.f(frame) return frame:expandTemplate{title='spin%s'} end" % name
+        f = "function e.g(frame) return spin(frame) end\nfunction e.f(frame) return frame:expandTemplate{title='spin%s'} end" % lname
     elif w == "set-timeout-call":
         f = "function e.f(frame) if _lua_set_timeout then _lua_set_timeout(59) end return spin(frame) end"
     elif w == "clear-hook-call":
@@ -207,7 +313,7 @@ class Parent:
         orig = core.call_lua_sandbox
         me = self
 
-        def wrapped(ctx, invoke_args, expander, parent, timeout):
+        def wrapped(ctx, invoke_args, expander, parent, timeout, *more, **kw):
             me.depth += 1
             me.maxdepth = max(me.maxdepth, me.depth)
             if me.depth == 1 and me.on_enter is not None:
@@ -216,7 +322,7 @@ class Parent:
             if me.nested_since_poll > NESTED_WITHOUT_POLL_MAX and me.on_runaway is not None:
                 me.on_runaway()
             try:
-                return orig(ctx, invoke_args, expander, parent, timeout)
+                return orig(ctx, invoke_args, expander, parent, timeout, *more, **kw)
             finally:
                 me.depth -= 1
         core.call_lua_sandbox = wrapped
@@ -256,9 +362,11 @@ def child_run(par, prog, limit, followups, jump, wfd):
             return v
         if state["deadline_poll"] is None and v > state["start"] + state["limit"]:
             state["deadline_poll"] = clock.polls          # the product's own condition is true at this poll
-        if state["deadline_poll"] is not None and par.depth >= 1 and clock.polls > state["deadline_poll"] + B:
-            rep["violations"].append(["R1:not-aborted-within-B-polls-after-deadline",
-                                      "polls=%d deadline_poll=%d depth=%d" % (clock.polls, state["deadline_poll"], par.depth)])
+            state["deadline_t"] = clock.t                 # ... at this virtual time
+        if state["deadline_poll"] is not None and par.depth >= 1 and clock.t > state["deadline_t"] + B_SECONDS:
+            rep["violations"].append(["R1:not-aborted-within-%s-virtual-seconds-after-deadline" % B_SECONDS,
+                                      "virtual seconds after the deadline poll=%.4f polls=%d deadline_poll=%d depth=%d" % (
+                                          clock.t - state["deadline_t"], clock.polls, state["deadline_poll"], par.depth)])
             finish(3)
         return v
     state["rearm_restarts"] = False
@@ -313,9 +421,13 @@ def child_run(par, prog, limit, followups, jump, wfd):
         finish(5)
     par.on_runaway = on_runaway
 
-    # wall-clock watchdog of the child itself: inconclusive, never a violation
+    # watchdog of the child itself: inconclusive, never a violation.  Counted in CPU seconds of the child (the machine
+    # may be shared: under load 120 s of wall clock are reached by programs that need 40 s of CPU); a long wall-clock
+    # alarm stays behind it for a child that is blocked without using CPU
     signal.signal(signal.SIGALRM, lambda *_: (rep.__setitem__("watchdog", True), finish(9)))
-    signal.alarm(120)
+    signal.signal(signal.SIGPROF, lambda *_: (rep.__setitem__("watchdog", True), finish(9)))
+    signal.setitimer(signal.ITIMER_PROF, CHILD_WATCHDOG_CPU)
+    signal.alarm(CHILD_WATCHDOG_WALL)
     import resource
     hard = resource.getrlimit(resource.RLIMIT_CPU)[1]
     # SIGXCPU ends the child (no Python handler).  The cap is pushed back by a heartbeat that only runs when the
@@ -323,7 +435,7 @@ def child_run(par, prog, limit, followups, jump, wfd):
     # because every iteration goes through Python (nested expansions) keep it alive, and so does an armed count hook
     # (it polls os.time = Python).  Only CHILD_CPU_CAP seconds of CPU spent inside Lua/C with no hook firing end it.
     def heartbeat(*_):
-        cap = int(time.process_time()) + CHILD_CPU_CAP
+        cap = int(time.process_time()) + prog.get("cpu_cap", CHILD_CPU_CAP)
         if hard != resource.RLIM_INFINITY:
             cap = min(cap, hard)
         resource.setrlimit(resource.RLIMIT_CPU, (cap, hard))
@@ -348,6 +460,7 @@ def child_run(par, prog, limit, followups, jump, wfd):
     state["active"] = False
     rep["deadline_poll"] = state["deadline_poll"]
     rep["polls_at_return"] = clock.polls
+    rep["vsec_after_deadline"] = (clock.t - state["deadline_t"]) if state["deadline_poll"] is not None else None
     rep["hook_armed_after_return"] = clock.armed
     rep["stacks_restored"] = (list(ctx.expand_stack), len(ctx.lua_env_stack), len(ctx.lua_frame_stack)) == before
     rep["messages"] = [(m["msg"][:120] + " || " + m["trace"][-700:]) for m in ctx.errors][:3]
@@ -450,7 +563,7 @@ def run_program(par, prog, limit, followups, jump, child=None):
             if not chunk:
                 break
             buf += chunk
-        if time.time() - t0 > 180:
+        if time.time() - t0 > CHILD_WATCHDOG_WALL + 60:
             try:
                 os.kill(pid, 9)
             except Exception:
@@ -475,15 +588,19 @@ def judge(par, prog, rep, limit, followups):
     """Offline part of the checker: (sig, msg) list from one child's report."""
     probs = []
     tag = "%s/%s" % (prog["body"], prog["wrapper"])
+    wt = wtag(prog["wrapper"])
+    nk = prog.get("name_kind", "plain")
+    if nk != "plain":
+        tag += " (module title contains %r)" % NAME_KINDS[nk].strip()
     for v in rep.get("violations", []):
-        probs.append((v[0] + "/wrapper=" + prog["wrapper"], v[1] + " program=" + tag))
+        probs.append((v[0] + "/wrapper=" + wt, v[1] + " program=" + tag))
     if rep.get("watchdog"):
         return probs, "watchdog"
     if rep.get("violations"):
         return probs, "online"
     out = rep.get("result")
     if out is None:
-        probs.append(("expand-raised-out-of-invoke/wrapper=" + prog["wrapper"], rep.get("exception", "")))
+        probs.append(("expand-raised-out-of-invoke/wrapper=" + wt, rep.get("exception", "")))
         return probs, "raised"
     if "Lua timeout error in Module:" in out:
         pass
@@ -492,9 +609,10 @@ def judge(par, prog, rep, limit, followups):
     elif rep.get("deadline_poll") is None and prog["may_error"]:
         pass
     else:
-        probs.append(("R3:no-timeout-element/wrapper=" + prog["wrapper"], "result=%r program=%s" % (out[:200], tag)))
+        probs.append(("R3:no-timeout-element/wrapper=" + wt + ("" if nk == "plain" else "/module-title-contains=" + nk.split("(")[0]),
+                      "result=%r program=%s" % (out[:200], tag)))
     if not rep.get("stacks_restored", True):
-        probs.append(("stacks-not-restored-after-invoke/wrapper=" + prog["wrapper"], tag))
+        probs.append(("stacks-not-restored-after-invoke/wrapper=" + wt, tag))
     for dtext, dr, restored in rep.get("disturbances", []):
         if dr.startswith("EXC "):
             probs.append(("failing-invocation-raised-out-of-expand", "%s -> %s" % (dtext, dr)))
@@ -503,15 +621,73 @@ def judge(par, prog, rep, limit, followups):
     for c, r in rep.get("followups", []):
         if r != par.expected[c]:
             kind = "raises" if r.startswith("EXC ") else ("timeout-element" if "Lua timeout error" in r else "other")
-            probs.append(("followup-differs-from-fresh-context(%s)/wrapper=%s" % (kind, prog["wrapper"]),
+            probs.append(("followup-differs-from-fresh-context(%s)/wrapper=%s" % (kind, wt),
                           "after %s: %s -> %r, fresh context gives %r" % (tag, c, r[:200], par.expected[c])))
     return probs, "ok"
+
+
+def evaluate(obs, par, case):
+    """One virtual-clock program (case = the replayable description): run, judge, record.  Returns 'exhausted' when the
+    program ran into the CPU cap, 'harness' when its child gave no report, else 'ok'."""
+    b, w, limit, fu, jump = case["body"], case["wrapper"], case["limit"], case["followups"], case["jump"]
+    nk = case.get("name_kind", "plain")
+    pages, call, may_error = program(b, w, case["n"], nk)
+    call = call * case.get("repeat", 1)
+    prog = {"body": b, "wrapper": w, "pages": pages, "call": call, "may_error": may_error,
+            "disturb": case.get("disturb", []), "name_kind": nk, "cpu_cap": cpu_cap_of(w)}
+    rep = run_program(par, prog, limit, fu, jump)
+    wt = wtag(w)
+    obs.count("disturbances", len(prog["disturb"]))
+    if "harness" in rep:
+        obs.inconclusive.append("program %s/%s: %s" % (b, w, rep["harness"]))
+        return "harness"
+    if rep.get("cpu_exhausted"):
+        obs.case([b, w, limit], nontrivial=True)
+        obs.add("body-wrapper-pairs", b + "/" + wt)
+        obs.violation("R1:never-aborted-and-no-poll-reached-the-checker-before-the-cpu-cap/wrapper=" + wt,
+                      "program %s/%s (limit %r) spent %d s of CPU inside Lua without returning, without one poll of "
+                      "the time limit and without any callback into Python: Lua is running where the count hook "
+                      "does not fire" % (b, w, limit, prog["cpu_cap"]), case)
+        return "exhausted"
+    probs, how = judge(par, prog, rep, limit, fu)
+    if how == "watchdog":
+        obs.inconclusive.append("program %s/%s: child watchdog fired (no logical witness)" % (b, w))
+    obs.case([b, w, limit] + ([nk] if nk != "plain" else []), nontrivial=rep.get("polls", 0) > 0,
+             sample={"program": pages[-1][2][:400], "call": call, "limit": limit, "events": rep.get("events", [])[:8],
+                     "result": (rep.get("result") or "")[:120], "deadline_poll": rep.get("deadline_poll"), "polls_at_return": rep.get("polls_at_return")})
+    obs.add("body-wrapper-pairs", b + "/" + wt)
+    for k, v in rep.get("anchors", {}).items():
+        obs.anchors[k] = obs.anchors.get(k, 0) + v
+    obs.count("polls", rep.get("polls", 0))
+    obs.count("hook.arm", sum(1 for e in rep.get("events", []) if e[0] == "arm"))
+    obs.count("hook.clear", sum(1 for e in rep.get("events", []) if e[0] == "clear"))
+    obs.count("monitor-hook-ticks", rep.get("monitor_ticks", 0))
+    if rep.get("maxdepth", 0) >= 2:
+        obs.count("invocation-depth>=2")
+    if rep.get("hook_armed_after_return"):
+        obs.count("observation.hook-still-armed-after-return")
+    if rep.get("rearms_while_active"):
+        obs.count("observation.rearm-while-invocation-active")
+    if rep.get("deadline_poll") is not None and rep.get("vsec_after_deadline") is not None and how == "ok":
+        obs.check("R1-aborted-within-bound-after-deadline")
+        obs.maxi("max-virtual-seconds-after-deadline", round(rep["vsec_after_deadline"], 4))
+        obs.maxi("max-polls-after-deadline", rep["polls_at_return"] - rep["deadline_poll"])
+    if how == "ok":
+        obs.check("R3-timeout-element")
+        obs.check("followup==fresh", len(rep.get("followups", [])))
+        if jump:
+            obs.count("followups-after-time-jump", len(rep.get("followups", [])))
+    for sig, msg in probs:
+        obs.violation(sig, msg[:600], case)
+    return "ok"
 
 
 def run_shard(spec):
     import wikitextprocessor.luaexec as lx
     obs = Obs()
     rng = random.Random(spec["seed"])
+    rng2 = random.Random(spec["seed"] * 7919 + 13)          # choices of the later-added dimensions (own stream)
+    tier = spec.get("tier", "quick")
     par = Parent()
     bodies = sorted(BODIES)
     combos = [(b, w) for b in bodies for w in WRAPPERS]
@@ -528,69 +704,37 @@ def run_shard(spec):
             limit = rng.choice([0.5, 1, 1, 2])
             if w == "load-time-loop":
                 w = "none"
-        pages, call, may_error = program(b, w, spec["seed"] * 100000 + i)
         # several top-level invocations in one expand() call: each has the configured limit for itself
         repeat = rng.choice([1, 1, 1, 2, 3])
-        call = call * repeat
-        prog = {"body": b, "wrapper": w, "pages": pages, "call": call, "may_error": may_error,
-                "disturb": [rng.choice(DISTURBANCES) for _ in range(rng.randint(0, 2))]}
+        disturb = [rng.choice(DISTURBANCES) for _ in range(rng.randint(0, 2))]
         fu = [rng.choice(BENIGN_CALLS) for _ in range(rng.randint(1, 5))] + ["{{#invoke:b|count}}"]
         if "{{#invoke:b|sum}}" not in fu:
             fu.append("{{#invoke:b|sum}}")       # > 100 000 instructions: a stale deadline can fire here
         jump = rng.random() < 0.5
-        rep = run_program(par, prog, limit, fu, jump)
+        # the module title is a free dimension of every program
+        nk = rng2.choice(sorted(NAME_KINDS)) if rng2.random() < 0.12 else "plain"
         case = {"body": b, "wrapper": w, "limit": limit, "followups": fu, "jump": jump, "n": spec["seed"] * 100000 + i,
-                "disturb": prog["disturb"], "repeat": repeat}
-        obs.count("disturbances", len(prog["disturb"]))
-        if "harness" in rep:
-            obs.inconclusive.append("program %s/%s: %s" % (b, w, rep["harness"]))
-            continue
-        if rep.get("cpu_exhausted"):
-            obs.case([b, w, limit], nontrivial=True)
-            obs.add("body-wrapper-pairs", b + "/" + w)
-            obs.violation("R1:never-aborted-and-no-poll-reached-the-checker-before-the-cpu-cap/wrapper=" + w,
-                          "program %s/%s (limit %r) spent %d s of CPU inside Lua without returning, without one poll of "
-                          "the time limit and without any callback into Python: Lua is running where the count hook "
-                          "does not fire" % (b, w, limit, CHILD_CPU_CAP), case)
+                "disturb": disturb, "repeat": repeat}
+        if nk != "plain":
+            case["name_kind"] = nk
+            obs.count("module-title-phrase-programs")
+        if evaluate(obs, par, case) == "exhausted":
             exhausted += 1
             if exhausted >= 3:
                 obs.notes.append("stopped early after 3 programs that ran into the CPU cap")
                 break
-            continue
-        probs, how = judge(par, prog, rep, limit, fu)
-        if how == "watchdog":
-            obs.inconclusive.append("program %s/%s: child wall-clock watchdog fired (no logical witness)" % (b, w))
-        obs.case([b, w, limit], nontrivial=rep.get("polls", 0) > 0,
-                 sample={"program": pages[-1][2][:400], "call": call, "limit": limit, "events": rep.get("events", [])[:8],
-                         "result": (rep.get("result") or "")[:120], "deadline_poll": rep.get("deadline_poll"), "polls_at_return": rep.get("polls_at_return")})
-        obs.add("body-wrapper-pairs", b + "/" + w)
-        for k, v in rep.get("anchors", {}).items():
-            obs.anchors[k] = obs.anchors.get(k, 0) + v
-        obs.count("polls", rep.get("polls", 0))
-        obs.count("hook.arm", sum(1 for e in rep.get("events", []) if e[0] == "arm"))
-        obs.count("hook.clear", sum(1 for e in rep.get("events", []) if e[0] == "clear"))
-        obs.count("monitor-hook-ticks", rep.get("monitor_ticks", 0))
-        if rep.get("maxdepth", 0) >= 2:
-            obs.count("invocation-depth>=2")
-        if rep.get("hook_armed_after_return"):
-            obs.count("observation.hook-still-armed-after-return")
-        if rep.get("rearms_while_active"):
-            obs.count("observation.rearm-while-invocation-active")
-        if rep.get("deadline_poll") is not None and rep.get("polls_at_return") is not None and how == "ok":
-            obs.check("R1-aborted-within-B-polls")
-            obs.maxi("max-polls-after-deadline", rep["polls_at_return"] - rep["deadline_poll"])
-        if how == "ok":
-            obs.check("R3-timeout-element")
-            obs.check("followup==fresh", len(rep.get("followups", [])))
-            if jump:
-                obs.count("followups-after-time-jump", len(rep.get("followups", [])))
-        for sig, msg in probs:
-            obs.violation(sig, msg[:600], case)
     # ---- CPU-clock programs (split over the shards)
     cpu_progs = [(b, w, lim) for b in sorted(CPU_BODIES) for w in CPU_WRAPPERS for lim in (1, 2)]
     random.Random(spec["seed"] // 1000).shuffle(cpu_progs)
-    per_shard = {"quick": 1, "thorough": 3}[spec.get("tier", "quick")]
-    for k, (b, w, lim) in enumerate(cpu_progs[spec["idx"]::16][:per_shard] if exhausted < 3 else []):
+    per_shard = {"quick": 1, "thorough": 3}[tier]
+    todo = list(enumerate(cpu_progs[spec["idx"]::16][:per_shard]))
+    # loops whose ONE library call runs longer than limit + bound (quick: two of them in the whole run)
+    slow = [(b, w, 1) for b in sorted(CPU_SLOW_CALL_BODIES) for w in CPU_WRAPPERS]
+    random.Random(spec["seed"] // 1000 + 1).shuffle(slow)
+    if tier == "quick":
+        slow = slow[:2]
+    todo += [(50 + k, x) for k, x in enumerate(slow) if (k * 5 + 3) % 16 == spec["idx"]]
+    for k, (b, w, lim) in (todo if exhausted < 3 else []):
         n = spec["seed"] * 100000 + 90000 + k
         pages, call, _ = program(b, w, n)
         prog = {"body": b, "wrapper": w, "pages": pages, "call": call, "may_error": False}
@@ -605,18 +749,50 @@ def run_shard(spec):
                  sample={"clock": "cpu", "program": pages[-1][2][:300], "limit": lim, "cpu_seconds": rep.get("cpu"),
                          "polls": rep.get("polls"), "result": (rep.get("result") or "")[:120]})
         obs.add("cpu-clock-programs", b + "/" + w)
-        obs.check("R1cpu-aborted-within-cpu-bound")
+        obs.check("R1cpu-slow-single-call" if b in CPU_SLOW_CALL_BODIES else "R1cpu-aborted-within-cpu-bound")
         if rep.get("cpu") is not None:
             obs.maxi("max-cpu-seconds-over-limit", round(rep["cpu"] - lim, 2))
         for sig, msg in probs:
             obs.violation(sig, msg[:600], case)
+    # ---- scans of the parameterised wrapper families (split over the shards; own counters, never end the shard early)
+    scan = []
+    for fam, n in NEST_SCAN[spec["idx"]::16]:
+        scan.append(("while-true", "%s:%d" % (fam, n), "plain", "nest-scan-programs"))
+        obs.add("nest-kinds", fam)
+        if tier == "thorough":
+            scan.append((rng2.choice(NEST_BODIES), "%s:%d" % (fam, n), "plain", "nest-scan-programs"))
+    depth = [(b, v) for b in DEPTH_LIMIT_BODIES for v in DEPTH_LIMIT_VIAS]
+    if tier == "quick":
+        depth = depth[:len(DEPTH_LIMIT_VIAS)]           # body while-true x every way of recursing
+    for k, (b, v) in enumerate(depth):
+        if (k * 5 + 1) % 16 == spec["idx"]:
+            scan.append((b, "%s:%s" % (DEPTH_LIMIT_FAMILY, v), "plain", "depth-limit-programs"))
+    for nk in sorted(NAME_KINDS):
+        if nk != "plain":
+            # the title appears in the failure message of a module that does not finish LOADING
+            scan.append((rng2.choice(TITLE_BODIES), "load-time-loop", nk, "module-title-phrase-programs"))
+            scan.append((rng2.choice(TITLE_BODIES), rng2.choice(["none", "pcall", "preprocess-nested-loop", "expandTemplate-loop"]), nk,
+                         "module-title-phrase-programs"))
+    for k, (b, w, nk, counter) in enumerate(scan):
+        fu = [rng2.choice(BENIGN_CALLS) for _ in range(rng2.randint(0, 2))] + ["{{#invoke:b|sum}}", "{{#invoke:b|count}}"]
+        case = {"body": b, "wrapper": w, "limit": rng2.choice([0.5, 1]), "followups": fu, "jump": rng2.random() < 0.3,
+                "n": spec["seed"] * 100000 + 50000 + k, "disturb": [], "repeat": 1}
+        if nk != "plain":
+            case["name_kind"] = nk
+        obs.count(counter)
+        obs.add("wrapper-families", wtag(w))
+        if counter == "depth-limit-programs":
+            obs.add("depth-limit-vias", w)
+        evaluate(obs, par, case)
     par.close()
     return obs
 
 
 def judge_cpu(par, prog, rep, limit):
     tag = "%s/%s" % (prog["body"], prog["wrapper"])
-    kind = "control" if "control" in prog["body"] else "loop-over-expensive-library-calls"
+    kind = ("control" if "control" in prog["body"] else
+            "loop-whose-one-library-call-outlasts-the-bound" if prog["body"] in CPU_SLOW_CALL_BODIES else
+            "loop-over-expensive-library-calls")
     if rep.get("cpu_exhausted"):
         return [("R1cpu:not-aborted-within-limit+%ds-of-cpu/%s" % (CPU_KILL_EXTRA, kind),
                  "program %s with limit %r s was still running after %d s of CPU (os.time = CPU clock of the process)" % (
@@ -640,10 +816,11 @@ def judge_cpu(par, prog, rep, limit):
 
 def replay(case):
     par = Parent()
-    pages, call, may_error = program(case["body"], case["wrapper"], case["n"])
+    pages, call, may_error = program(case["body"], case["wrapper"], case["n"], case.get("name_kind", "plain"))
     call = call * case.get("repeat", 1)
     prog = {"body": case["body"], "wrapper": case["wrapper"], "pages": pages, "call": call, "may_error": may_error,
-            "disturb": case.get("disturb", [])}
+            "disturb": case.get("disturb", []), "name_kind": case.get("name_kind", "plain"),
+            "cpu_cap": cpu_cap_of(case["wrapper"])}
     if case.get("clock") == "cpu":
         rep = run_program(par, prog, case["limit"], case["followups"], False, child=child_run_cpu)
         probs = judge_cpu(par, prog, rep, case["limit"]) or []
@@ -652,7 +829,7 @@ def replay(case):
     rep = run_program(par, prog, case["limit"], case["followups"], case["jump"])
     if rep.get("cpu_exhausted"):
         par.close()
-        return {"violations": ["R1:never-aborted-and-no-poll-reached-the-checker-before-the-cpu-cap/wrapper=" + case["wrapper"]],
+        return {"violations": ["R1:never-aborted-and-no-poll-reached-the-checker-before-the-cpu-cap/wrapper=" + wtag(case["wrapper"])],
                 "report": rep, "module": pages[-1][2]}
     probs, how = judge(par, prog, rep, case["limit"], case["followups"]) if "harness" not in rep else ([], "harness")
     par.close()
